@@ -56,7 +56,8 @@ var c17ParseDocs = map[*Codec][][]byte{
 		append([]byte{0x78, 70}, bytes.Repeat([]byte{'x'}, 70)...), {0xfa, 0x3f, 0x80, 0, 0}, {0xa1, 0x60, 0x38, 0xc7}, {0x98, 0x01, 0x1b, 1, 2, 3, 4, 5, 6, 7, 8}},
 	codecUBJSON: {{'Z'}, {'i', 1}, []byte("Si\x01a"), {'[', ']'}, {'{', '}'}, []byte("[#i\x02i\x01i\x02"), []byte("[$U#i\x02\x01\x02"), []byte("{$i#i\x01i\x01a\x05"),
 		[]byte("[$[#i\x01$i#i\x01\x07"), []byte("{#i\x01i\x01a[T]"), append([]byte{'S', 'U', 70}, bytes.Repeat([]byte{'x'}, 70)...), []byte("[$Z#i\x02"), []byte("[i\x01[i\x02]]"),
-		[]byte("[#i\x00"), []byte("{$S#i\x00"), []byte("HU\x0212"), []byte("[N]")},
+		[]byte("[#i\x00"), []byte("{$S#i\x00"), []byte("HU\x0212"), []byte("[N]"),
+		[]byte("{i\x01aNi\x05}"), []byte("[#i\x01Ni\x05"), []byte("[$[#i\x02{$i#i\x01i\x01a\x05]i\x07]")},
 }
 
 type c17S struct {
